@@ -130,9 +130,19 @@ func Gen(t *rapid.T, maxBlocks int) Case {
 		c.GateAt = rapid.IntRange(1, 6).Draw(t, "gateat")
 		c.GateAll = rapid.Bool().Draw(t, "gateall")
 	}
+	if rapid.IntRange(0, 7).Draw(t, "fail-then-pause-then-cancel") == 0 {
+		// an early message of response 0 fails to send while its traversal runs on to the block at which it
+		// pauses itself; the paused response is cancelled by the responder at the end
+		c.Reqs[0].ReqHook, c.Reqs[0].PauseAt, c.Reqs[0].ErrAt = "validate", rapid.IntRange(2, 3).Draw(t, "fp"), 0
+		c.FailAt, c.ConnFail, c.StallAt, c.Retries = []int{rapid.IntRange(0, 1).Draw(t, "ff")}, nil, nil, 1
+		c.EndCancel = true
+		c.Ops = append([]Op{{K: "new", R: 0}}, c.Ops...)
+	}
 	c.MaxInProg = rapid.SampledFrom([]int{0, 0, 1, 2}).Draw(t, "maxinprog")
 	c.PerPeer = rapid.SampledFrom([]int{0, 0, 0, 1}).Draw(t, "perpeer")
-	c.EndCancel = rapid.Bool().Draw(t, "endcancel")
+	if !c.EndCancel {
+		c.EndCancel = rapid.Bool().Draw(t, "endcancel")
+	}
 	return c
 }
 
